@@ -36,13 +36,22 @@ impl OpeningHoursExpression {
         };
 
         // Ignores rules from the end as long as they are all evaluated to the same kind.
-        let search_tail_full = self.rules.iter().rev().find(|rs| {
+        let search_tail_full = self.rules.iter().rposition(|rs| {
             rs.day_selector.is_empty() || !rs.time_selector.is_00_24() || rs.kind != kind
         });
 
-        let Some(tail) = search_tail_full else {
+        let Some(tail_pos) = search_tail_full else {
             return kind == RuleKind::Closed;
         };
+
+        let tail = &self.rules[tail_pos];
+
+        // A fallback rule only applies on days that previous rules left closed.
+        if tail.operator == RuleOperator::Fallback
+            && (self.rules[..tail_pos].iter()).any(|rs| rs.kind != RuleKind::Closed)
+        {
+            return false;
+        }
 
         tail.kind == kind && tail.is_constant()
     }
